@@ -217,7 +217,7 @@ check("C27", "internal/zzverif/c27",
       note="Redis is the repository's provider against miniredis v2.34 (the server the repository's own test uses), not a real server. Empty keys, use after Close and concurrent use are not generated; iterators are consumed immediately (the documented validity of Key()/Value() is 'until Next').",
       shards=(8, 16),
       floors={"any": {"puts": 20000, "deletes": 10000, "gets": 20000, "batch_writes": 20000, "batches_committed_with_several_ops": 2000, "batches_discarded": 2000, "iterations_memory": 3000, "iterations_pebble": 3000, "iterations_redis": 2000, "ops_memory": 5000, "ops_pebble": 5000, "ops_redis": 3000,
-                      "iterations_proper_subset": 2000, "iterations_nonempty_with_start": 1000, "full_content_comparisons": 20000}},
+                      "iterations_proper_subset": 2000, "iterations_nonempty_with_start": 1000, "full_content_comparisons": 20000, "iterations_with_a_prefix_ending_in_FF_below_an_existing_key": 150}},
       assumptions=[STANDIN_VRF, "miniredis stands in for a Redis server"])
 
 check("C21", "internal/accumulation",
